@@ -386,7 +386,7 @@ def check_dtype_certificates(chk, d, entries, scalar_types=("complex128", "float
                 for c in cases:
                     ok = check_dtype_kernel(chk, d, c, tag, e, st, summary, witness=not seen_fail)
                     seen_fail = seen_fail or not ok
-    chk.notes["dtype_kernels"] = summary["kernels"]
+    chk.notes["dtype_kernels"] = chk.notes.get("dtype_kernels", 0) + summary["kernels"]
     chk.notes["dtype_certified"] = summary["certified"]
     chk.notes["dtype_by_type"] = summary["by_type"]
     chk.notes["dtype_nontrivial_kernels"] = summary["nontrivial"]
